@@ -1,167 +1,19 @@
 (* Model side of the correspondence: reads one case per line (TAB separated,
    same protocol as harness/h.c), runs the extracted Gallina model, prints one
-   canonical result line per case. *)
-open Model
-
-(* ---- conversions between OCaml values and the extracted inductive numbers *)
-let rec pos_of_int (i : int) : positive =
-  if i = 1 then XH else if i land 1 = 0 then XO (pos_of_int (i lsr 1)) else XI (pos_of_int (i lsr 1))
-let n_of_int (i : int) : n = if i = 0 then N0 else Npos (pos_of_int i)
-let rec int_of_pos = function XH -> 1 | XO p -> 2 * int_of_pos p | XI p -> 2 * int_of_pos p + 1
-let int_of_n = function N0 -> 0 | Npos p -> int_of_pos p
-
-let bytes_of_string (s : string) : n list =
-  let r = ref [] in
-  for i = String.length s - 1 downto 0 do r := n_of_int (Char.code s.[i]) :: !r done; !r
-let string_of_bytes (l : n list) : string =
-  let b = Buffer.create 64 in
-  List.iter (fun x -> Buffer.add_char b (Char.chr ((int_of_n x) land 255))) l; Buffer.contents b
-
-let hexv c = match c with
-  | '0'..'9' -> Char.code c - 48 | 'a'..'f' -> Char.code c - 87 | 'A'..'F' -> Char.code c - 55 | _ -> 0
-let unhex (s : string) : string =
-  if s = "-" then "" else
-  String.init (String.length s / 2) (fun i -> Char.chr (hexv s.[2*i] * 16 + hexv s.[2*i+1]))
-let hex (s : string) : string =
-  if s = "" then "-" else begin
-    let b = Buffer.create (2 * String.length s) in
-    String.iter (fun c -> Buffer.add_string b (Printf.sprintf "%02x" (Char.code c))) s; Buffer.contents b end
-
-let sz = function None -> "MAX" | Some v -> string_of_int (int_of_n v)
-
-(* apply a write list to a buffer of ol bytes of 0xA5; a write outside it breaks the canary *)
-let apply_writes (w : (n * n) list) (ol : int) : string * bool =
-  let b = Bytes.make ol '\xa5' in
-  let ok = ref true in
-  List.iter (fun (i, v) ->
-    let i = int_of_n i in
-    if i < ol then Bytes.set b i (Char.chr ((int_of_n v) land 255)) else ok := false) w;
-  (Bytes.to_string b, !ok)
-
-let bufres_line (r : bufres) (ol : string) : string =
-  if r.oob then "OOB-READ" else
-  if ol = "NULL" then sz r.ret
-  else begin
-    let (b, ok) = apply_writes r.writes (int_of_string ol) in
-    Printf.sprintf "%s %s %s" (sz r.ret) (hex b) (if ok then "canary-ok" else "CANARY-BROKEN")
-  end
-
-let olarg s = if s = "NULL" then None else Some (n_of_int (int_of_string s))
-
-let rec nat_of_int (i : int) : nat = if i <= 0 then O else S (nat_of_int (i - 1))
-let rec int_of_nat = function O -> 0 | S n -> 1 + int_of_nat n
-
-(* ---- JSON through the extracted parser / dumper ---- *)
-let jarg (s : string) : json option =
-  if s = "-" then None else
-  match parse_proto (bytes_of_string s) with
-  | Some j -> Some j
-  | None -> failwith ("model: cannot parse JSON argument: " ^ s)
-let jout (j : json option) : string =
-  match j with None -> "ERR" | Some j -> string_of_bytes (dump j)
-
-(* ---- chain shapes ---- *)
-let parse_shape (s : string) : chain =
-  let pos = ref 0 in
-  let eat (p : string) : bool =
-    let l = String.length p in
-    if !pos + l <= String.length s && String.sub s !pos l = p then (pos := !pos + l; true) else false in
-  let num () : int =
-    let st = !pos in
-    if !pos < String.length s && s.[!pos] = '-' then incr pos;
-    while !pos < String.length s && s.[!pos] >= '0' && s.[!pos] <= '9' do incr pos done;
-    int_of_string (String.sub s st (!pos - st)) in
-  let rec build () : chain =
-    if eat "malloc" then Sink (SMalloc [])
-    else if eat "buffer:" then (let c = num () in Sink (SBuffer (n_of_int c, [])))
-    else if eat "file" then Sink (SFile [])
-    else if eat "faulty:" then begin
-      let ff = num () in
-      ignore (eat ":");
-      let fd = num () in
-      Sink (SFaulty ((if ff < 0 then None else Some (nat_of_int ff)), fd <> 0, O, []))
-    end
-    else if eat "b64enc(" then (let n = build () in ignore (eat ")"); Stage (b64enc_T, [], n))
-    else if eat "b64dec(" then (let n = build () in ignore (eat ")"); Stage (b64dec_T, [], n))
-    else if eat "hash:" then begin
-      let st = !pos in
-      while s.[!pos] <> '(' do incr pos done;
-      let name = String.sub s st (!pos - st) in
-      incr pos;
-      let h = (match name with "S1" -> SHA1 | "S224" -> SHA224 | "S256" -> SHA256 | "S384" -> SHA384
-               | "S512" -> SHA512 | _ -> failwith "model: unknown hash") in
-      let n = build () in ignore (eat ")");
-      Stage (atdone_T (fun m -> Some (hash h m)), [], n)
-    end
-    else if eat "plexany(" then plex false
-    else if eat "plexall(" then plex true
-    else failwith "model: unknown shape"
-  and plex (all : bool) : chain =
-    if eat ")" then Plex (all, []) else begin
-      let bs = ref [] in
-      let fin = ref false in
-      while not !fin do
-        let b = build () in
-        bs := (true, b) :: !bs;
-        if eat "," then () else (ignore (eat ")"); fin := true)
-      done;
-      Plex (all, List.rev !bs)
-    end in
-  build ()
-
-let split_chunks (sizes : string) (data : string) : n list list =
-  if sizes = "-" then [] else begin
-    let off = ref 0 in
-    List.map (fun t ->
-      let l = int_of_string t in
-      let l = if !off + l > String.length data then String.length data - !off else l in
-      let c = String.sub data !off l in
-      off := !off + l; bytes_of_string c) (String.split_on_char ',' sizes)
-  end
-
-let chain_line (f : string array) : string =
-  let c = parse_shape f.(1) in
-  let data = unhex f.(3) in
-  let chunks = split_chunks f.(2) data in
-  let ((c', acc), v) = runc c chunks in
-  let acc = int_of_nat acc in
-  let b = Buffer.create 64 in
-  Buffer.add_string b (string_of_int acc);
-  Buffer.add_char b ' ';
-  Buffer.add_string b (if acc < List.length chunks then "-" else if v then "T" else "F");
-  List.iter (fun d -> Buffer.add_char b ' '; Buffer.add_string b (hex (string_of_bytes d))) (all_sinks c');
-  Buffer.contents b
-
-let dispatch (f : string array) : string =
-  match f.(0) with
-  | "b64decbuf" -> bufres_line (dec_buf (bytes_of_string (unhex f.(1))) (olarg f.(2))) f.(2)
-  | "b64encbuf" -> bufres_line (enc_buf (bytes_of_string (unhex f.(1))) (olarg f.(2))) f.(2)
-  | "b64spec" ->
-      (* the RFC-level specification, for the model-internal cross check *)
-      (match f.(1) with
-       | "enc" -> hex (string_of_bytes (enc (bytes_of_string (unhex f.(2)))))
-       | _ -> (match dec (bytes_of_string (unhex f.(2))) with None -> "ERR" | Some b -> hex (string_of_bytes b)))
-  | "b64dec" ->
-      (match jarg f.(1) with
-       | Some j -> bufres_line (jose_b64_dec j (olarg f.(2))) f.(2)
-       | None -> "MAX")
-  | "b64enc" -> jout (jose_b64_enc (bytes_of_string (unhex f.(1))))
-  | "b64load" -> (match jarg f.(1) with Some j -> jout (jose_b64_dec_load j) | None -> "ERR")
-  | "b64dump" -> (match jarg f.(1) with Some j -> jout (jose_b64_enc_dump j) | None -> "ERR")
-  | "jsonrt" -> (* parse then dump: validates the Gallina parser/dumper against jansson *)
-      (match parse_any (bytes_of_string (unhex f.(1))) with None -> "ERR" | Some j -> string_of_bytes (dump j))
-  | "chain" -> chain_line f
-  | _ -> raise Not_found
-
+   canonical result line per case.  Command handlers live in d_*.ml and register
+   themselves in Dcore.commands. *)
 let () =
   try
     while true do
       let line = input_line stdin in
       if line <> "" then begin
         let f = Array.of_list (String.split_on_char '\t' line) in
-        let out = try dispatch f with
-          | Stack_overflow -> "MODEL-STACK-OVERFLOW"
-          | Not_found -> "MODEL-UNKNOWN-COMMAND" in
+        let out =
+          match Hashtbl.find_opt Dcore.commands f.(0) with
+          | None -> "MODEL-UNKNOWN-COMMAND"
+          | Some h -> (try h f with
+                       | Stack_overflow -> "MODEL-STACK-OVERFLOW"
+                       | Failure m -> "MODEL-FAILURE " ^ m) in
         print_string out; print_char '\n'
       end
     done
